@@ -159,8 +159,37 @@ def _kernel_of(target, op, wrappers, what):
     return KERNEL_IDS[k]
 
 
+def _arm_cfg(text):
+    """host family an arm is compiled for, from the `#[cfg(..)]` attribute text preceding it"""
+    attrs = re.findall(r"#\s*\[\s*cfg\s*\((.*?)\)\s*\]", text, flags=re.S)
+    if not attrs:
+        return "any"
+    t = attrs[-1]
+    x86 = "x86" in t
+    arm = ("\"arm\"" in t) or ("aarch64" in t)
+    if "not" in t or (x86 and arm) or not (x86 or arm):
+        raise ParseError("unrecognised cfg on a dispatcher arm: %s" % t.strip())
+    return "x86" if x86 else "arm"
+
+
 def parse_dispatch(wrappers):
+    """(host, elem, op, arm) -> kernel id, for host in x86 (arms Generic/Sse2/Avx2) and
+    arm (arms Generic/Neon: the cfg(arm/aarch64) variants; not compiled on this host)"""
     src = _strip_comments(open(os.path.join(SRC, "pli/dispatch.rs")).read())
+    # which variants exist on which host
+    m = re.search(r"\bpub\s+enum\s+Dispatch\b", src)
+    if not m:
+        raise ParseError("enum Dispatch not found")
+    enum_body, _ = _block(src, m.end())
+    variants = {}
+    prev = 0
+    for v in re.finditer(r"\b([A-Z]\w*)\s*,", enum_body):
+        variants[v.group(1)] = _arm_cfg(enum_body[prev:v.start()])
+        prev = v.end()
+    expect = {"Generic": "any", "Sse2": "x86", "Avx2": "x86", "Neon": "arm"}
+    if variants != expect:
+        raise ParseError("enum Dispatch variants/cfgs changed: %s" % variants)
+    hosts = {"x86": ("Generic", "Sse2", "Avx2"), "arm": ("Generic", "Neon")}
     table = {}
     for elem in ("f32", "u8"):
         meths = _methods(_impl_body(src, "Maximum", elem, "Dispatch"))
@@ -171,31 +200,52 @@ def parse_dispatch(wrappers):
             if not m:
                 raise ParseError("`match self.backend` not found in dispatcher %s<%s>" % (op, elem))
             arms_txt, _ = _block(meths[op], m.end())
-            starts = list(re.finditer(r"(?:\bDispatch\s*::\s*(\w+)|(?<![\w:])_)\s*=>", arms_txt))
+            starts = list(re.finditer(r"(?P<attrs>(?:#\s*\[[^\]]*\]\s*)*)(?:\bDispatch\s*::\s*(\w+)|(?<![\w:])_)\s*=>", arms_txt))
             arms = {}
-            for k, s in enumerate(starts):
+            for k, s_ in enumerate(starts):
                 end = starts[k + 1].start() if k + 1 < len(starts) else len(arms_txt)
-                name = s.group(1) or "_"
+                name = s_.group(2) or "_"
+                what = "dispatch %s<%s> arm %s" % (op, elem, name)
+                cfg = _arm_cfg(s_.group("attrs"))
+                body = arms_txt[s_.end():end]
                 if name in arms:
                     raise ParseError("duplicate arm %s" % name)
-                arms[name] = _kernel_of(_target(arms_txt[s.end():end], "dispatch %s<%s> arm %s" % (op, elem, name)),
-                                        op, wrappers, "dispatch %s<%s> arm %s" % (op, elem, name))
-            for a in arms:
-                if a not in ("Generic", "Sse2", "Avx2", "Neon", "_"):
-                    raise ParseError("unknown dispatcher arm %s" % a)
-            for a in ("Generic", "Sse2", "Avx2"):
-                if a not in arms and "_" not in arms:
-                    raise ParseError("dispatcher %s<%s> has no arm for %s" % (op, elem, a))
-                table[(elem, op, a)] = arms.get(a, arms.get("_"))
+                if name != "_" and name not in variants:
+                    raise ParseError("unknown dispatcher arm %s" % name)
+                if name != "_" and cfg not in ("any", variants[name]):
+                    raise ParseError("%s: cfg %s does not match the variant's" % (what, cfg))
+                arms[name] = (_kernel_of(_target(body, what), op, wrappers, what), cfg)
+            if "_" in arms and arms["_"][1] != "any":
+                raise ParseError("the default arm of dispatch %s<%s> is cfg-restricted" % (op, elem))
+            for host, names in hosts.items():
+                for a_ in names:
+                    if a_ in arms and arms[a_][1] in ("any", host):
+                        table[(host, elem, op, a_)] = arms[a_][0]
+                    elif "_" in arms:
+                        table[(host, elem, op, a_)] = arms["_"][0]
+                    else:
+                        raise ParseError("dispatcher %s<%s> has no arm for %s on %s hosts" % (op, elem, a_, host))
         if _impl_body(src, "Threshold", elem, "Dispatch").strip():
             raise ParseError("dispatcher Threshold<%s> is no longer the default implementation" % elem)
     return table
 
 
+def parse_lanes():
+    """Backend::Lanes of Neon (= the dispatcher's column count on Arm hosts)"""
+    src = _strip_comments(open(os.path.join(SRC, "pli/platform/neon.rs")).read())
+    m = re.search(r"\bimpl\s+Backend\s+for\s+Neon\s*\{\s*type\s+Lanes\s*=\s*U(\d+)\s*;", src)
+    if not m:
+        raise ParseError("`impl Backend for Neon { type Lanes = U<n>; }` not found")
+    d = _strip_comments(open(os.path.join(SRC, "pli/dispatch.rs")).read())
+    if not re.search(r"#\s*\[\s*cfg\s*\(\s*any\s*\(\s*target_arch\s*=\s*\"arm\"\s*,\s*target_arch\s*=\s*\"aarch64\"\s*\)\s*\)\s*\]\s*type\s+Lanes\s*=\s*<\s*Neon\s+as\s+Backend\s*>\s*::\s*Lanes\s*;", d):
+        raise ParseError("Dispatch::Lanes on Arm hosts is no longer <Neon as Backend>::Lanes")
+    return int(m.group(1))
+
+
 def parse_pipelines(wrappers):
     src = _strip_comments(open(os.path.join(SRC, "pli/mod.rs")).read())
     table = {}
-    for backend in ("Sse2", "Avx2"):
+    for backend in ("Sse2", "Avx2", "Neon"):
         for elem in ("f32", "u8"):
             meths = _methods(_impl_body(src, "Maximum", elem, backend))
             for op in ("argmax", "max"):
@@ -299,7 +349,7 @@ def _pairs(l):
     return "[" + "; ".join("(%d, %d)" % p for p in l) + "]"
 
 
-def render(disp, pipes, k):
+def render(disp, pipes, k, lanes):
     L = []
     L.append("(* GENERATED by translate/maxi_tables.py from /repo/lightmotif/src/pli/{dispatch.rs,mod.rs,")
     L.append("   platform/avx2.rs,platform/sse2.rs} -- do not edit; regenerated on every check. *)")
@@ -313,11 +363,23 @@ def render(disp, pipes, k):
             L.append("Definition gen_dispatch_%s_%s (a : arm) : kernel_id :=" % (op, elem))
             L.append("  match a with")
             for arm, c in (("Generic", "AGeneric"), ("Sse2", "ASse2"), ("Avx2", "AAvx2")):
-                L.append("  | %s => %s" % (c, disp[(elem, op, arm)]))
+                L.append("  | %s => %s" % (c, disp[("x86", elem, op, arm)]))
             L.append("  end.")
     L.append("")
-    L.append("(* impl Maximum<T, _> for Pipeline<A, Sse2> / Pipeline<A, Avx2>: (argmax, max) *)")
-    for backend in ("Sse2", "Avx2"):
+    L.append("(* the same tables as compiled on Arm hosts (cfg(arm/aarch64): variants Generic and Neon;")
+    L.append("   not compiled on the x86_64 host of the checks: read from the source only) and the")
+    L.append("   column count of the dispatcher there, <Neon as Backend>::Lanes *)")
+    L.append("Definition gen_armhost_lanes : nat := %d." % lanes)
+    for elem in ("f32", "u8"):
+        for op in ("argmax", "max"):
+            L.append("Definition gen_armhost_dispatch_%s_%s (a : neon_arm) : kernel_id :=" % (op, elem))
+            L.append("  match a with")
+            for arm, c in (("Generic", "NGeneric"), ("Neon", "NNeon")):
+                L.append("  | %s => %s" % (c, disp[("arm", elem, op, arm)]))
+            L.append("  end.")
+    L.append("")
+    L.append("(* impl Maximum<T, _> for Pipeline<A, Sse2> / Pipeline<A, Avx2> / Pipeline<A, Neon>: (argmax, max) *)")
+    for backend in ("Sse2", "Avx2", "Neon"):
         for elem in ("f32", "u8"):
             L.append("Definition gen_pipeline_%s_%s : kernel_id * kernel_id := (%s, %s)." % (
                 backend.lower(), elem, pipes[(backend, elem, "argmax")], pipes[(backend, elem, "max")]))
@@ -351,7 +413,8 @@ def run(write=True):
         disp = parse_dispatch(wrappers)
         pipes = parse_pipelines(wrappers)
         k = parse_kernels()
-        text = render(disp, pipes, k)
+        lanes = parse_lanes()
+        text = render(disp, pipes, k, lanes)
     except (ParseError, OSError, ValueError) as e:
         errors.append("maxi_tables: cannot parse the source: %s" % e)
         if not os.path.exists(OUT):
@@ -380,7 +443,7 @@ def run(write=True):
                 f.write(text)
             changed = True
     notes.append("maxi_tables: dispatch %s; u8 reconstruction %s%s" % (
-        ",".join("%s.%s.%s->%s" % (e, o, a, v) for (e, o, a), v in sorted(disp.items()) if a != "Generic"),
+        ",".join("%s:%s.%s.%s->%s" % (h, e, o, a, v) for (h, e, o, a), v in sorted(disp.items()) if a != "Generic"),
         k["u8_q"], " (regenerated)" if changed else ""))
     return dict(ok=True, notes=notes, errors=errors)
 
